@@ -67,6 +67,7 @@ def run_one(lines, x, schedule, keep_trace=False):
     devs = []            # (tick, kind, accepted, target item, instances alive before)
     prev_state = "Stopped"
     probs = []
+    left_after_stop = []
     cancellable = {}     # tick -> indexes of run-log items offered as cancellable before that tick
     for t in range(HORIZON):
         if t == x:
@@ -86,8 +87,7 @@ def run_one(lines, x, schedule, keep_trace=False):
         if "tick_exception" in ob:
             probs.append(("C11:tick-raised", f"Engine.tick raised {ob['tick_exception']} at tick {t}"))
         if ob["state"] == "Stopped" and prev_state != "Stopped" and ob["instances"]:
-            probs.append((f"C11:instance-left-after-stop:{','.join(ob['instances'])}",
-                          f"uod.command_instances = {ob['instances']} in tick {t} in which System State became Stopped"))
+            left_after_stop.append((t, ob["instances"]))
         prev_state = ob["state"]
         if keep_trace:
             try:
@@ -101,12 +101,12 @@ def run_one(lines, x, schedule, keep_trace=False):
     final_instances = sorted(run.uod.command_instances.keys())
     errors = list(run.error_events)
     run.cleanup()
-    p2, info = judge(events, reqlog, devs, final_instances, errors)
+    p2, info = judge(events, reqlog, devs, final_instances, errors, left_after_stop)
     info["cancellable"] = cancellable
     return probs + p2, info, trace
 
 
-def judge(events, reqlog, devs, final_instances, errors):
+def judge(events, reqlog, devs, final_instances, errors, left_after_stop=()):
     probs = []
     sym = []             # symptoms: (signature, what, instance ids involved, group)
     info = collections.Counter()
@@ -226,10 +226,15 @@ def judge(events, reqlog, devs, final_instances, errors):
             else:
                 info["still-running-at-horizon"] += 1
     late_init = [tk for (tk, name, phase, iid, it) in events if phase == "init" and tk > last_tick - SETTLE]
-    if final_instances and not late_init:
-        sym.append((f"C11:instance-left-at-end:{','.join(final_instances)}",
-                    f"uod.command_instances = {final_instances} at tick {last_tick}, no command was started in the last {SETTLE} ticks",
-                    {i for i in by_iid if name_of[i] in final_instances}, None))
+    if not late_init:
+        for n in final_instances:
+            sym.append((f"C11:instance-left-at-end:{n}",
+                        f"uod.command_instances = {final_instances} at tick {last_tick}, no command was started in the last {SETTLE} ticks",
+                        {i for i in by_iid if name_of[i] == n}, group_of(n)))
+    for t, names in left_after_stop:
+        for n in names:
+            sym.append((f"C11:instance-left-after-stop:{n}", f"uod.command_instances = {names} in tick {t} in which System State became Stopped",
+                        {i for i in by_iid if name_of[i] == n}, group_of(n)))
     # Root-cause diagnosis: collapse the symptoms of one cause into one signature built from the facts of the execution.
     # (a) an accepted cancel of a UOD item whose command had not started yet did not prevent the start (known, C15/C12):
     #     the node is cancelled, the command runs anyway and a later cancellation of it fails half-way.
